@@ -68,39 +68,41 @@ CHECKS = [
              "length, axis permutation and charge magnitude is asserted. Largest ratio found is reported in evidence. Acceptance: real "
              "TwoLeafUnitBoundingPotential and TwoCompositeObjectSummedBoundingPotential handlers under scripted draws - the break "
              "point of the hand-over in the confirmation draw equals max(0,q_true)/q_bound recomputed by independent oracles at the "
-             "time-sliced separation, nothing changes above it. In runs: the code's own bounding_potential_warning must stay silent "
+             "time-sliced separation, nothing changes above it. The cell-bounding handler (stub estimator) and the root-mode "
+             "summed-bound handler are checked the same way, including the number of independent exponential draws (one per "
+             "pair) and candidate time == minimum over the pairs. In runs: the code's own bounding_potential_warning must stay silent "
              "for handlers using the 1/r bound.",
      "note": "Exploration: the supremum is a limit (s_d -> 0 at an edge mid-point), margin 1e-4; a bound prefactor >= 1.58355 cannot "
              "be told from a valid one. True rate = MergedImageCoulombPotential at default Ewald parameters (tied to the converged "
              "sum by C03); noise floor 1e-11/L^2."},
     {"id": "C07", "engine": "history-monitor", "design_ref": "DESIGN.md §3 C07, §2.2",
      "technique": "property-based testing over generated run histories (Hypothesis draws configuration, seed, budget) with a per-event invariant monitor on the real mediator loop",
-     "text": 'Every commit of instrumented runs (16 shipped configurations verbatim + parameter-edited variants, 160 histories x 300-1500 events quick, ~1000 x up to 20000 thorough): monotone event time, trajectory continuity of every unit at the event time modulo the box, resting units bit-identical, exactly one moving chain at the configured speed, positions in the box, identities/charges unchanged.',
-     "note": "Trusted: vlib/monitor.py (harness-side recomputation of trajectories with the code's own Time subtraction), instance-attribute wrappers of vlib/engine.py, private reads Mediator._state_handler/_scheduler/_activator/_input_output_handler and Activator._taggers/_internal_states. Runs with cell systems are not a pure function of the seed (sets of Cell objects hashed by address): a violation found is real, its replay may need repeating. Generated configurations edit parameters of shipped files only; hard_disk_dipoles(.ini|_cells.ini) need MDAnalysis and are not runnable here."},
+     "text": 'Every commit of instrumented runs (17 shipped configurations verbatim + parameter-edited variants + generated families G4 (N hard-disk dipoles, 2-D rotated velocities) and G5 (cell system in a non-cubic box), 160 histories x 300-1500 events quick, ~1000 x up to 20000 thorough): monotone event time, trajectory continuity of every unit at the event time modulo the box, resting units bit-identical, exactly one moving chain at the configured speed, positions in the box, identities/charges unchanged.',
+     "note": "Trusted: vlib/monitor.py (harness-side recomputation of trajectories with the code's own Time subtraction), instance-attribute wrappers of vlib/engine.py, private reads Mediator._state_handler/_scheduler/_activator/_input_output_handler and Activator._taggers/_internal_states. Since the repair of the nearby-cells ordering (fix 55b0c76) runs with cell systems are a pure function of the drawn case; should Hypothesis still report a non-reproducible failure the first observed violation is reported with a note. Generated configurations edit parameters of shipped files only; hard_disk_dipoles(.ini|_cells.ini) need MDAnalysis and are not runnable here."},
     {"id": "C08", "engine": "history-monitor", "design_ref": "DESIGN.md §3 C08, §2.2",
      "technique": "property-based testing over generated run histories (Hypothesis draws configuration, seed, budget) with a per-event invariant monitor on the real mediator loop",
      "text": 'At every commit of an interaction or cell-veto handler the in-state snapshot taken when its candidate was computed is compared with the global state just before the commit: same velocities, same straight-line trajectory, same positions of resting units. Sampling intervals are drawn small so that candidates regularly survive intervening events.',
-     "note": "Trusted: vlib/monitor.py (harness-side recomputation of trajectories with the code's own Time subtraction), instance-attribute wrappers of vlib/engine.py, private reads Mediator._state_handler/_scheduler/_activator/_input_output_handler and Activator._taggers/_internal_states. Runs with cell systems are not a pure function of the seed (sets of Cell objects hashed by address): a violation found is real, its replay may need repeating. Generated configurations edit parameters of shipped files only; hard_disk_dipoles(.ini|_cells.ini) need MDAnalysis and are not runnable here."},
+     "note": "Trusted: vlib/monitor.py (harness-side recomputation of trajectories with the code's own Time subtraction), instance-attribute wrappers of vlib/engine.py, private reads Mediator._state_handler/_scheduler/_activator/_input_output_handler and Activator._taggers/_internal_states. Since the repair of the nearby-cells ordering (fix 55b0c76) runs with cell systems are a pure function of the drawn case; should Hypothesis still report a non-reproducible failure the first observed violation is reported with a note. Generated configurations edit parameters of shipped files only; hard_disk_dipoles(.ini|_cells.ini) need MDAnalysis and are not runnable here."},
     {"id": "C09", "engine": "history-monitor", "design_ref": "DESIGN.md §3 C09, §2.2",
      "technique": "property-based testing over generated run histories (Hypothesis draws configuration, seed, budget) with a per-event invariant monitor on the real mediator loop",
      "text": 'Before every get_succeeding_event the pending (pushed, not trashed) in-state identifier tuples per tagger are compared, as multisets of ordered tuples, with what the tagger yields from scratch for the current active state; counts for the non-interaction taggers; TagActivatorError and exceeding the owned handlers are violations.',
-     "note": "Trusted: vlib/monitor.py (harness-side recomputation of trajectories with the code's own Time subtraction), instance-attribute wrappers of vlib/engine.py, private reads Mediator._state_handler/_scheduler/_activator/_input_output_handler and Activator._taggers/_internal_states. Runs with cell systems are not a pure function of the seed (sets of Cell objects hashed by address): a violation found is real, its replay may need repeating. Generated configurations edit parameters of shipped files only; hard_disk_dipoles(.ini|_cells.ini) need MDAnalysis and are not runnable here."},
+     "note": "Trusted: vlib/monitor.py (harness-side recomputation of trajectories with the code's own Time subtraction), instance-attribute wrappers of vlib/engine.py, private reads Mediator._state_handler/_scheduler/_activator/_input_output_handler and Activator._taggers/_internal_states. Since the repair of the nearby-cells ordering (fix 55b0c76) runs with cell systems are a pure function of the drawn case; should Hypothesis still report a non-reproducible failure the first observed violation is reported with a note. Generated configurations edit parameters of shipped files only; hard_disk_dipoles(.ini|_cells.ini) need MDAnalysis and are not runnable here."},
     {"id": "C11", "engine": "history-monitor", "design_ref": "DESIGN.md §3 C11, §2.2",
      "technique": "property-based testing over generated run histories (Hypothesis draws configuration, seed, budget) with a per-event invariant monitor on the real mediator loop",
-     "text": 'On all cell configurations (shipped + edited grids/caps/N): before every get the occupancy view (occupants per cell, surplus, active cell) is compared with the true positions; at every commit the active unit advanced to the event time must lie in its recorded cell, after a cell-boundary event in the neighbour in the direction of motion.',
-     "note": "Trusted: vlib/monitor.py (harness-side recomputation of trajectories with the code's own Time subtraction), instance-attribute wrappers of vlib/engine.py, private reads Mediator._state_handler/_scheduler/_activator/_input_output_handler and Activator._taggers/_internal_states. Runs with cell systems are not a pure function of the seed (sets of Cell objects hashed by address): a violation found is real, its replay may need repeating. Generated configurations edit parameters of shipped files only; hard_disk_dipoles(.ini|_cells.ini) need MDAnalysis and are not runnable here."},
+     "text": 'On all cell configurations (shipped + edited grids/caps/N, clustered initial configurations with several units per cell, generated family G5 in a non-cubic box): right after every activator update and before every get the occupancy view (occupants per cell, surplus, active cell) is compared with the true positions; at every commit the active unit advanced to the event time must lie in its recorded cell, after a cell-boundary event in the neighbour in the direction of motion.',
+     "note": "Trusted: vlib/monitor.py (harness-side recomputation of trajectories with the code's own Time subtraction), instance-attribute wrappers of vlib/engine.py, private reads Mediator._state_handler/_scheduler/_activator/_input_output_handler and Activator._taggers/_internal_states. Since the repair of the nearby-cells ordering (fix 55b0c76) runs with cell systems are a pure function of the drawn case; should Hypothesis still report a non-reproducible failure the first observed violation is reported with a note. Generated configurations edit parameters of shipped files only; hard_disk_dipoles(.ini|_cells.ini) need MDAnalysis and are not runnable here."},
     {"id": "C12", "engine": "history-monitor", "design_ref": "DESIGN.md §3 C12, §2.2",
      "technique": "property-based testing over generated run histories (Hypothesis draws configuration, seed, budget) with a per-event invariant monitor on the real mediator loop",
-     "text": 'On all composite-object configurations: at every commit and on the initial random state, per object, stored velocity == weighted sum of point-mass velocities (absent iff none moves) and stored position advanced to the event time == weighted nearest-image barycentre of its point masses advanced from their own time stamps.',
-     "note": "Trusted: vlib/monitor.py (harness-side recomputation of trajectories with the code's own Time subtraction), instance-attribute wrappers of vlib/engine.py, private reads Mediator._state_handler/_scheduler/_activator/_input_output_handler and Activator._taggers/_internal_states. Runs with cell systems are not a pure function of the seed (sets of Cell objects hashed by address): a violation found is real, its replay may need repeating. Generated configurations edit parameters of shipped files only; hard_disk_dipoles(.ini|_cells.ini) need MDAnalysis and are not runnable here."},
+     "text": 'On all composite-object configurations: at every commit and on the initial random state, per object, stored velocity == weighted sum of point-mass velocities (absent iff none moves) and stored position advanced to the event time == weighted barycentre of its point masses advanced from their own time stamps, the point masses taken as nearest images of each other (anchored at one of them, not at the stored position under test). Includes the generated family G4 (several hard-disk dipoles created by the random input handler or on a lattice).',
+     "note": "Trusted: vlib/monitor.py (harness-side recomputation of trajectories with the code's own Time subtraction), instance-attribute wrappers of vlib/engine.py, private reads Mediator._state_handler/_scheduler/_activator/_input_output_handler and Activator._taggers/_internal_states. Since the repair of the nearby-cells ordering (fix 55b0c76) runs with cell systems are a pure function of the drawn case; should Hypothesis still report a non-reproducible failure the first observed violation is reported with a note. Generated configurations edit parameters of shipped files only; hard_disk_dipoles(.ini|_cells.ini) need MDAnalysis and are not runnable here."},
     {"id": "C13", "engine": "history-monitor", "design_ref": "DESIGN.md §3 C13, §2.2",
      "technique": "property-based testing over generated run histories (Hypothesis draws configuration, seed, budget) with a per-event invariant monitor on the real mediator loop",
      "text": 'Run part: the global-state snapshot after commit i equals the snapshot just before commit i+1 bit for bit in every generated history. Stateful part (extract/mutate/insert machine against a dictionary model) is added as a second sub-check.',
-     "note": "Trusted: vlib/monitor.py (harness-side recomputation of trajectories with the code's own Time subtraction), instance-attribute wrappers of vlib/engine.py, private reads Mediator._state_handler/_scheduler/_activator/_input_output_handler and Activator._taggers/_internal_states. Runs with cell systems are not a pure function of the seed (sets of Cell objects hashed by address): a violation found is real, its replay may need repeating. Generated configurations edit parameters of shipped files only; hard_disk_dipoles(.ini|_cells.ini) need MDAnalysis and are not runnable here."},
+     "note": "Trusted: vlib/monitor.py (harness-side recomputation of trajectories with the code's own Time subtraction), instance-attribute wrappers of vlib/engine.py, private reads Mediator._state_handler/_scheduler/_activator/_input_output_handler and Activator._taggers/_internal_states. Since the repair of the nearby-cells ordering (fix 55b0c76) runs with cell systems are a pure function of the drawn case; should Hypothesis still report a non-reproducible failure the first observed violation is reported with a note. Generated configurations edit parameters of shipped files only; hard_disk_dipoles(.ini|_cells.ini) need MDAnalysis and are not runnable here."},
     {"id": "C17", "engine": "history-monitor", "design_ref": "DESIGN.md §3 C17, §2.2",
      "technique": "property-based testing over generated run histories (Hypothesis draws configuration, seed, budget) with a per-event invariant monitor on the real mediator loop",
-     "text": 'Generated sampling intervals (incl. 0.1/0.3/0.7, first sample at zero or one interval), end times in [2,12]: k-th write right after a commit at k*interval within (k+1)*2^-52*(1+interval), every moving unit in the written state time-stamped exactly at the sample time, end-of-run event last at Time.from_float(end), number of samples == number of nominal times before the end.',
-     "note": "Trusted: vlib/monitor.py (harness-side recomputation of trajectories with the code's own Time subtraction), instance-attribute wrappers of vlib/engine.py, private reads Mediator._state_handler/_scheduler/_activator/_input_output_handler and Activator._taggers/_internal_states. Runs with cell systems are not a pure function of the seed (sets of Cell objects hashed by address): a violation found is real, its replay may need repeating. Generated configurations edit parameters of shipped files only; hard_disk_dipoles(.ini|_cells.ini) need MDAnalysis and are not runnable here."},
+     "text": 'Generated sampling intervals (incl. 0.1/0.3/0.7, first sample at zero or one interval), end times in [2,12]: k-th write right after a commit at k*interval within (k+1)*2^-52*(1+interval), every moving unit in the written state time-stamped exactly at the sample time, end-of-run event last at Time.from_float(end), number of samples == number of nominal times before the end; one history in six has 500-8000 samples. Sub-check periodic_handlers: the bare sampling and dumping handlers are asked for up to 4000 consecutive candidate times, each compared with k*interval in Fractions (one rounding per step allowed), strictly increasing.',
+     "note": "Trusted: vlib/monitor.py (harness-side recomputation of trajectories with the code's own Time subtraction), instance-attribute wrappers of vlib/engine.py, private reads Mediator._state_handler/_scheduler/_activator/_input_output_handler and Activator._taggers/_internal_states. Since the repair of the nearby-cells ordering (fix 55b0c76) runs with cell systems are a pure function of the drawn case; should Hypothesis still report a non-reproducible failure the first observed violation is reported with a note. Generated configurations edit parameters of shipped files only; hard_disk_dipoles(.ini|_cells.ini) need MDAnalysis and are not runnable here."},
     {"id": "C06", "engine": "hypothesis-runner", "design_ref": "DESIGN.md §3 C06",
      "technique": "model-based stateful property testing (Hypothesis RuleBasedStateMachine: heap vs list scheduler vs dictionary model) + coverage-guided fuzzing (libFuzzer, ASan+UBSan) of heap.c with an in-target reference model",
      "text": "Generated push/trash/get/pickle/burst/counter-overflow histories drive HeapScheduler, ListScheduler and a dictionary model "
